@@ -785,3 +785,111 @@ void run_bake(uint64_t seed, const sk_mask* mask, sk_result* out, int alloc_mode
 			sk_violate(out, "leak:protocol", "%ld block(s) left after the recovery session", sk_heap_live());
 	}
 }
+
+
+/* ------------------------------------------------------------------------
+   Single-octet sweep (C04 quantifier: "every single-octet alteration of every
+   message M1..M4"): one run fixes a configuration and long-term keys from the
+   seed and then alters, in turn, EVERY octet position of EVERY message of the
+   protocol (one session per position).  Complete for the configuration drawn. */
+void run_bake_sweep(uint64_t seed, const sk_mask* mask, sk_result* out)
+{
+	sk_rng r;
+	cfg_t* c = &CFG;
+	uint64_t fill, ts[2], ss;
+	int strat, dir, ord;
+	unsigned el = 0, sessions = 0;
+	OUT = out, MASK = mask;
+	c15_only = 0;
+	sk_rng_seed(&r, seed);
+	gen_cfg(&r, 1);
+	/* quick tier: the smallest curve; short certificates keep M2/M3 of BSTS/BAUTH sweepable */
+	if (!sk_options.tier && c->l != 128)
+	{
+		c->l = 128;
+		b2_params(c->params, 32);
+	}
+	{
+		int s2;
+		tape_t setup;
+		sk_rng_seed(&setup.r, sk_u64(&r)), setup.mode = 0, setup.calls = 0;
+		for (s2 = 0; s2 < 2; ++s2)
+		{
+			c->tape_mode[s2] = 0;
+			b2_keypair(c->priv[s2], c->pub[s2], c->l / 4, tape_gen, &setup);
+			c->cert_pref[s2] = sk_below(&r, 24);
+			sk_bytes(&r, c->certdata[s2], c->cert_pref[s2]);
+			memcpy(c->certdata[s2] + c->cert_pref[s2], c->pub[s2], c->l / 2);
+			c->certlen[s2] = c->cert_pref[s2] + c->l / 2;
+		}
+	}
+	if (c->proto == P_BAUTH)
+		c->mode[0] = c->mode[1] = 1;
+	fill = sk_u64(&r), ts[0] = sk_u64(&r), ts[1] = sk_u64(&r), ss = sk_u64(&r);
+	strat = (int)sk_below(&r, 4);
+	describe("single-octet sweep");
+	sk_heap_filter = heap_filter;
+	for (dir = 0; dir < 2; ++dir)
+		for (ord = 0; ord < 2; ++ord)
+		{
+			size_t len, pos;
+			if (!msg_exists(dir, ord))
+				continue;
+			len = msg_len(dir, ord);
+			for (pos = 0; pos < len; ++pos, ++el)
+			{
+				channel* ch = &CHS[0];
+				if (!sk_keep(mask, el))
+					continue;
+				sk_heap_reset(fill);
+				PT[0].fail_at = PT[1].fail_at = 0;
+				setup_party(0, ts[0], 0), setup_party(1, ts[1], 0);
+				ch_init(ch, 0);
+				ch->field_len = c->l / 4;
+				ch->fragment_honest = 0xFF;
+				ch->nfaults = 1;
+				ch->faults[0].dir = dir, ch->faults[0].ord = ord, ch->faults[0].kind = F_CORRUPT1;
+				ch->faults[0].pos = (unsigned)pos, ch->faults[0].val = (unsigned)sk_below(&r, 255);
+				ch->faults[0].fired = 0;
+				if (run_session(ch, ss, strat) != 0)
+				{
+					sk_violate(out, "deadlock", "sweep session did not terminate (message to-%c#%d, octet %u)", dir ? 'B' : 'A', ord, (unsigned)pos);
+					sk_restart_requested = 1;
+					return;
+				}
+				++sessions;
+				sk_dg_u64(&out->digest, PT[0].rc), sk_dg_u64(&out->digest, PT[1].rc);
+				if (!ch->tampered)
+				{
+					sk_fault(out, "sweep: the altered octet was never delivered (message to-%c#%d, octet %u)", dir ? 'B' : 'A', ord, (unsigned)pos);
+					return;
+				}
+				if (PT[0].accepted && PT[1].accepted && !memcmp(PT[0].key, PT[1].key, 32))
+				{
+					sk_text(OUT, "  altered octet %u of message to-%c#%d: both accept, keys equal", (unsigned)pos, dir ? 'B' : 'A', ord);
+					sk_violate(out, "tampered_run_agreed", "%s l=%u kca=%d kcb=%d: octet %u of the message to-%c#%d was altered and both parties accepted the same key",
+						PN[c->proto], (unsigned)c->l, c->kca, c->kcb, (unsigned)pos, dir ? 'B' : 'A', ord);
+					return;
+				}
+				if ((c->kca || c->kcb) && PT[0].accepted && PT[1].accepted)
+				{
+					sk_text(OUT, "  altered octet %u of message to-%c#%d: both accept", (unsigned)pos, dir ? 'B' : 'A', ord);
+					sk_violate(out, "tampered_run_confirmed", "%s l=%u kca=%d kcb=%d: octet %u of the message to-%c#%d was altered and no confirming party returned an error",
+						PN[c->proto], (unsigned)c->l, c->kca, c->kcb, (unsigned)pos, dir ? 'B' : 'A', ord);
+					return;
+				}
+				if (sk_heap_live())
+				{
+					sk_violate(out, "leak:protocol", "%ld block(s) left after a tampered session (octet %u of message to-%c#%d)", sk_heap_live(), (unsigned)pos, dir ? 'B' : 'A', ord);
+					return;
+				}
+			}
+		}
+	out->nops = el;
+	sk_count("fault.corrupt1", sessions);
+	sk_count("probe.sweep_sessions", sessions);
+	sk_count("probe.sweep_configs_completed", 1);
+	sk_text(OUT, "  %u positions swept, every altered session rejected or keys differ", sessions);
+	out->sig = sk_mix(((uint64_t)c->proto << 24) | ((uint64_t)c->l << 8) | ((uint64_t)c->kca << 3) | ((uint64_t)c->kcb << 2) | ((uint64_t)c->mode[0] << 1) | (uint64_t)c->mode[1], 77);
+	out->nontrivial = 1;
+}
